@@ -2,7 +2,7 @@
 # parse every specification module (flat copy, like the checks do): catches clashes between shared modules early
 D=$(mktemp -d /tmp/sany.XXXXXX); cp /verif/spec/*/*.tla $D/; cp /opt/veriftools/tlapm/lib/tlapm/stdlib/TLAPS.tla $D/ 2>/dev/null; cd $D; bad=0
 for f in *.tla; do
-  out=$(java -cp /opt/veriftools/tla/tla2tools.jar:/opt/veriftools/tla/CommunityModules-deps.jar tla2sany.SANY $f 2>&1)
+  out=$(java -Djava.io.tmpdir=$D -cp /opt/veriftools/tla/tla2tools.jar:/opt/veriftools/tla/CommunityModules-deps.jar tla2sany.SANY $f 2>&1)
   if echo "$out" | grep -qE "\*\*\* Errors|Parse Error|Fatal errors|Could not"; then echo "SANY FAIL $f"; echo "$out" | grep -E "already defined|Unknown operator|Parse Error|line [0-9]+, col" | head -4; bad=1; fi
 done
 rm -rf $D; [ $bad = 0 ] && echo "all modules parse"
